@@ -17,4 +17,7 @@ PROPS = {
  'C20': dict(module='ArcSwapModel.Props.C20', harness_modes=['serde'], extra=['extra_serde'],
              trusted=['the serde framework (that real Serializers see what SerdeM.ser describes) and serde\'s rc feature (a pointer serializes as its target)'],
              assumptions=['Serialize goes through load(), which for the serializing thread returns the current value (C03)']),
+ 'C16': dict(module='ArcSwapModel.Props.C16', harness_modes=['cache'], extra=['extra_cache'],
+             trusted=['load_full is one atomic event of CacheM (its linearizability is C03); the relaxed pointer peek is modelled as reading the current value (SC)'],
+             assumptions=['None is an address like any other (null is never freed)', 'weak-memory: a stale relaxed peek that equals the cached address returns the cached value, one that differs triggers a reload; not modelled globally']),
 }
